@@ -18,11 +18,18 @@ Driver-side relational clauses (on the returned table only):
   on_axis_coincide  s on the axis: all n sub-units of a parent have the same complete position
   spelling_agree    'Cn', 'cn', n, float(n), np.int64(n) and np.float64(n) give the same sub-units: after ordering by (geom5, geom2) equal parent, index,
                     inherited fields, complete positions and orientation matrices (numbering and Euler spelling not compared)
-Exhaustive sub-space (extra): every n in 1..32 (quick) / 1..64 (thorough) x the six spellings x {generic, on-axis, zero} offset.
+  repeat_agree      the same expansion asked twice of one UNCHANGED Motl object (other expansions in between) gives the same sub-units
+Histories (classes history_*): ONE Motl object is expanded, edited IN PLACE (angles via apply_rotation / flip_handedness /
+column assignment / the caller's own DataFrame handle; positions; ids; row order; other fields; the caller-owned offset
+array) and expanded again - every expansion is judged by the call monitors against the list as it is at the time of THAT call.
+Exhaustive sub-space (extra): every n in 1..32 (quick) / 1..64 (thorough) x the six spellings x {generic, on-axis, zero} offset;
+option-pair grid: spelling x offset container x offset kind x index layout, every combination several times.
 """
+import math
 import types
 
 import numpy as np
+import pandas as pd
 
 from vmon import gens, monitors
 from vmon.oracles import c10_oracle as orc
@@ -47,7 +54,7 @@ ASSUMPTIONS = [
     "'a number' = Python int, integral Python float, numpy integer or integral numpy float (six spellings are generated: 'Cn', "
     "'cn', int, float, np.int64, np.float64); bool, non-integral floats, strings other than C<n>/c<n> without leading zeros, "
     "and n outside 1..64 are out of domain",
-    "input lists have pairwise different subtomo_id (otherwise 'its parent' is ambiguous), finite fields, |position| <= 1e7",
+    "input lists have pairwise different subtomo_id (otherwise 'its parent' is ambiguous), finite fields, |position| <= 1e10",
     "orientations are compared entry-wise with 1e-6 (not 1e-9): the result is only observable as zxz Euler angles and the "
     "Euler extraction treats |theta| < 1e-7 rad as gimbal lock (measured loss 3.5e-9 on near-gimbal inputs); positions with "
     "1e-9*max(1,|s|) + 1e-13*max|centre|",
@@ -56,24 +63,42 @@ ASSUMPTIONS = [
 
 CLASSES = ["divisor", "nondivisor", "n1", "n_33_64", "on_axis", "zero_offset", "inplane_offset", "int_offset",
            "single_particle", "many_particles", "gimbal", "near_gimbal", "wide_angles", "half_ties", "large_signed_pos",
-           "odd_ids_index", "zero_shift"]
+           "odd_ids_index", "zero_shift", "history_reorient", "history_move", "history_symmetry", "glued_index",
+           "theta_outside", "block_sizes", "repr_bounds", "duplicates"]
 SPELLINGS = ["Cn", "cn", "int", "float", "np.int64", "np.float64"]
 CLAUSES = ["rows_per_parent", "subunit_index", "orientation", "position", "unique_ids", "inherited", "integral"]
 NONDIV = [n for n in range(1, 65) if 360 % n]
 DIV = [n for n in range(1, 65) if 360 % n == 0]
+# block-boundary sizes: (N, n) with N <= 100, n <= 64 and N*n = 2**k - 1, 2**k or 2**k + 1 (k = 6..12)
+BLOCK_PAIRS = {}
+for _k in range(6, 13):
+    for _d in (-1, 0, 1):
+        _t = 2 ** _k + _d
+        _v = [(_N, _t // _N) for _N in range(1, 101) if _t % _N == 0 and 1 <= _t // _N <= 64]
+        if _v:
+            BLOCK_PAIRS[_t] = _v
+BLOCK_TARGETS = sorted(BLOCK_PAIRS)
+BLOCK_N = [63, 64, 65, 99, 100, 31, 32, 33]
+ANGLE_EDITS = ["apply_rotation", "flip_handedness", "assign_angle_columns", "loc_assign_angles", "caller_handle_angles",
+               "iloc_some_rows_angles", "flip_handedness_dims"]
+MOVE_EDITS = ["add_to_columns", "loc_assign_shifts", "scale_coordinates", "iloc_some_rows_pos", "renumber_ids", "reorder_rows",
+              "edit_fields", "caller_handle_pos"]
+CONTAINERS = ["ndarray", "list", "tuple", "int_list", "int_tuple", "int_ndarray"]
 
 
 def plan(tier):
+    # floors are stated from the DRIVER's own calls only (tools/audit_call_structure.sh): every split and every
+    # update_coordinates counted here is called directly by run_case / extra
     if tier == "quick":
-        call_min = 700
-        return dict(n_cases=340, shards=1, classes=CLASSES, timeout_s=600,
-                    min_evals=dict({c: call_min for c in CLAUSES}, recentre=600, back_to_centre=700, z_orbit=700,
-                                   spelling_agree=400, on_axis_coincide=80),
+        call_min = 1500
+        return dict(n_cases=20 * len(CLASSES), shards=1, classes=CLASSES, timeout_s=900,
+                    min_evals=dict({c: call_min for c in CLAUSES}, recentre=800, back_to_centre=call_min, z_orbit=call_min,
+                                   spelling_agree=450, on_axis_coincide=300, repeat_agree=30),
                     min_anchor_calls={"Motl.split_in_asymmetric_subunits": call_min})
-    call_min = 4800
-    return dict(n_cases=2550, shards=16, classes=CLASSES, timeout_s=3000,
-                min_evals=dict({c: call_min for c in CLAUSES}, recentre=4200, back_to_centre=4800, z_orbit=4800,
-                               spelling_agree=2400, on_axis_coincide=500),
+    call_min = 6000
+    return dict(n_cases=120 * len(CLASSES), shards=16, classes=CLASSES, timeout_s=3000,
+                min_evals=dict({c: call_min for c in CLAUSES}, recentre=4200, back_to_centre=call_min, z_orbit=call_min,
+                               spelling_agree=2200, on_axis_coincide=500, repeat_agree=150),
                 min_anchor_calls={"Motl.split_in_asymmetric_subunits": call_min})
 
 
@@ -162,7 +187,7 @@ def setup(ctx):
                             _split_applicable, _split_snapshot)
     f_uc = monitors.wrap(ctx, cryomotl.Motl, "update_coordinates", "recentre", _uc_post, _uc_applicable, _uc_snapshot)
     ctx.declare(*CLAUSES)
-    ctx.declare("back_to_centre", "z_orbit", "on_axis_coincide", "spelling_agree")
+    ctx.declare("back_to_centre", "z_orbit", "on_axis_coincide", "spelling_agree", "repeat_agree")
     specs = [("Motl.split_in_asymmetric_subunits", f_split,
               {"string_spelling": "re.findall", "string_is_c": ("s_type = 1", 0), "string_is_d": "s_type = 2",
                "numeric_spelling": ("s_type = 1", 1), "cyclic_angles": ("n_subunits = nfold", 0),
@@ -223,6 +248,62 @@ def _container(v, kind):
     return np.array(v, dtype=np.int64)
 
 
+def _plant_repr(rq, df, j):
+    """representability boundaries: adjacent ids just above 1e5 / 2**24 / 2**31 / below 2**53; coordinates just above 1e5,
+    2**24, 2**31; complete positions an ulp / 1e-9..5e-7 below (and exactly on) a rounding tie, shifts of nextafter(0.5, 0)"""
+    N = len(df)
+    base = [100000.0, 2.0 ** 24 - 2, 2.0 ** 31 - 2, 2.0 ** 53 - N - 3][j % 4]
+    df["subtomo_id"] = base + 1.0 + rq.permutation(N)
+    ck = ["1e5", "2^24", "2^31", "small"][(j // 4) % 4]
+    off = {"1e5": 1e5, "2^24": 2.0 ** 24, "2^31": 2.0 ** 31, "small": 0.0}[ck]
+    for c in ("x", "y", "z"):
+        df[c] = off + np.round(rq.uniform(1, 60, N)) * (1.0 if ck != "small" else rq.choice([-1.0, 1.0], N))
+    ulp_ties = 0
+    for r in range(N):
+        kind = int(rq.integers(0, 6))
+        for c in ("x", "y", "z"):
+            k = float(df.at[r, c])
+            if kind == 0:                                        # an ulp below the tie, no shift
+                df.at[r, c] = np.nextafter(k + 0.5, -np.inf); df.at[r, "shift_" + c] = 0.0; ulp_ties += 1
+            elif kind == 1:                                      # exactly on the tie
+                df.at[r, c] = k + 0.5; df.at[r, "shift_" + c] = 0.0
+            elif kind == 2:                                      # 1e-9 .. 5e-7 below the tie
+                df.at[r, c] = k + 0.5 - float(rq.choice([1e-9, 3e-8, 5e-7])); df.at[r, "shift_" + c] = 0.0
+            elif kind == 3:                                      # integer coordinate, shift just below / on one half
+                df.at[r, "shift_" + c] = float(rq.choice([np.nextafter(0.5, 0.0), -np.nextafter(0.5, 0.0), 0.5, -0.5, 0.5 - 1e-9]))
+            elif kind == 4:                                      # an ulp above the lower tie
+                df.at[r, c] = np.nextafter(k - 0.5, np.inf); df.at[r, "shift_" + c] = 0.0; ulp_ties += 1
+            # kind 5: ordinary fractional shift as generated
+    return {"ids_from": base + 1.0, "coordinates": ck, "cells_an_ulp_from_a_tie": ulp_ties}
+
+
+def _plan_history(rq, cls, j, n, s, thorough):
+    """steps on ONE Motl object; every split is judged against the list as it is at that moment"""
+    nmax = 32
+    def other_n():
+        return int(rq.choice([m for m in (2, 3, 4, 5, 6, 7, 8, 9, 11, 12, 13, 16, 24, nmax) if m != n]))
+    def other_s():
+        v = rq.uniform(-30, 30, 3)
+        r = rq.random()
+        if r < 0.2:
+            v[:2] = 0.0
+        elif r < 0.3:
+            v[:] = 0.0
+        return v
+    def split(nn, ss):
+        return {"op": "split", "n": int(nn), "spelling": SPELLINGS[int(rq.integers(0, len(SPELLINGS)))], "s": np.array(ss, dtype=float)}
+    if cls == "history_symmetry":
+        n2 = other_n()
+        s2 = other_s() if rq.random() < 0.7 else np.array(s, dtype=float)
+        return [split(n, s), split(n2, s2), dict(split(n, s), repeat_of=0), dict(split(n2, s2), repeat_of=1)]
+    edits = ANGLE_EDITS if cls == "history_reorient" else MOVE_EDITS
+    steps = [split(n, s), {"op": "edit", "name": edits[j % len(edits)]},
+             split(n if rq.random() < 0.5 else other_n(), s if rq.random() < 0.5 else other_s())]
+    if rq.random() < 0.5:
+        steps += [{"op": "edit", "name": edits[int(rq.integers(0, len(edits)))]}, split(other_n(), other_s())]
+    return steps
+
+
 def gen(ctx, i, cls):
     rng = ctx.rng(i)
     thorough = ctx.tier == "thorough"
@@ -257,7 +338,28 @@ def gen(ctx, i, cls):
             n = min(n, int(rng.choice([2, 3, 4, 6, 7, 8, 9, 10, 11, 12])))
     elif cls == "n_33_64" and not thorough:
         N = min(N, 6)
-    if cls != "many_particles" and N * n > 2000:                  # bounds the work; the full 100 x 64 corner is in many_particles
+    elif cls == "block_sizes":
+        if i // len(CLASSES) == 0:
+            N, n = orc.PARTICLES_MAX, orc.N_MAX                   # the largest list x the largest order of the quantifier
+        elif rng.random() < 0.3:
+            N = int(rng.choice(BLOCK_N))
+            n = int(rng.choice([1, 2, 3, 7, 8, 16, 31, 32, 33, 63, 64]))
+            if not thorough and N * n > 2200:
+                n = max(1, 2200 // N)
+        else:
+            pool = BLOCK_TARGETS if (thorough or rng.random() < 0.12) else [t for t in BLOCK_TARGETS if t <= 1025]
+            pairs = BLOCK_PAIRS[pool[(i // len(CLASSES)) % len(pool)]]          # cycles through the row counts
+            N, n = pairs[int(rng.integers(0, len(pairs)))]
+    elif cls == "glued_index":
+        g = int(rng.choice([2, 2, 3, 4]))                         # rows per index label; n shares the factor g with it
+        n = g * int(rng.integers(1, 32 // g + 1))
+        N = g * int(rng.integers(1, 11))
+    elif cls.startswith("history"):
+        N = int(rng.choice([1, 2, 3, 4, 6, 8, 12]))
+        n = min(n, 32)
+    elif cls == "duplicates":
+        N = 2 * int(rng.integers(1, 8))
+    if cls not in ("many_particles", "block_sizes") and N * n > 2000:                  # bounds the work; the full 100 x 64 corner is in many_particles
         N = max(1, 2000 // n)
     ori = {"gimbal": "gimbal", "near_gimbal": "near_gimbal", "wide_angles": "wide", "half_ties": "lattice"}.get(cls, "mixed")
     signed = bool(rng.integers(0, 2))
@@ -293,19 +395,64 @@ def gen(ctx, i, cls):
             for c in ("x", "y", "z"):
                 df.loc[m, c] = np.round(df.loc[m, c])
     n_zero = int(zero.sum())
+    rq = ctx.rng(i, 4)
+    # theta < 0 or in (180, 360) (what flip_handedness produces): the whole list in theta_outside, part of the list elsewhere
+    if cls == "theta_outside" or (ori == "mixed" and rq.random() < 0.25):
+        th = rq.uniform(0, 180, N)
+        oth = np.where(rq.random(N) < 0.5, -th, 180.0 + th)
+        lat = rq.random(N) < 0.15
+        oth[lat] = rq.choice([-90.0, -180.0, 270.0, -45.0, 225.0, 359.5, -0.5], int(lat.sum()))
+        pick = np.ones(N, dtype=bool) if cls == "theta_outside" else rq.random(N) < 0.5
+        df.loc[pick, "theta"] = oth[pick]
+    if cls == "duplicates":                                       # exact duplicates: same pose, different id and score
+        h = N // 2
+        pose = ["x", "y", "z", "shift_x", "shift_y", "shift_z", "phi", "theta", "psi"]
+        same_all = rq.random() < 0.3
+        for c in (gens.COLS if same_all else pose):
+            if c != "subtomo_id":
+                df.loc[h:, c] = df[c].to_numpy()[:h]
+        if not same_all:
+            df["score"] = rq.permutation(np.arange(N)) / float(N)
+    repr_note = None
+    if cls == "repr_bounds":
+        repr_note = _plant_repr(rq, df, i // len(CLASSES))
     index = None
-    if cls == "odd_ids_index" or rng.random() < 0.15:
+    if cls == "odd_ids_index" or (cls != "repr_bounds" and rng.random() < 0.15):
         df["subtomo_id"] = rng.choice(np.arange(1, max(10 ** int(rng.integers(2, 7)), 3 * N)), size=N, replace=False).astype(float)
         index = (rng.integers(0, max(2, N // 2 + 1), N) * 3 + 5) if rng.random() < 0.5 else rng.permutation(N) + 11
+    glued = None
+    if cls == "glued_index" or (cls.startswith("history") and N >= 2 and rq.random() < 0.3):
+        g = math.gcd(N, n) if cls == "glued_index" else 2
+        g = g if 2 <= g <= N else 2
+        if rq.random() < 0.7:
+            m = -(-N // g)
+            glued = [m] * (N // m) + ([N % m] if N % m else [])      # equal pieces: every label g times
+        else:
+            a = int(rq.integers(1, N))
+            glued = [a, N - a]
+        index = None
     s, kind = _offset(rng, cls)
+    if cls == "repr_bounds":
+        mode = (i // len(CLASSES)) % 4
+        if mode in (0, 3):
+            s[:] = 0.0
+        elif mode == 1:                                           # on-axis offset on the identity orientation: x, y untouched
+            s[:2] = 0.0
+            df["phi"] = 0.0; df["theta"] = 0.0; df["psi"] = 0.0
+    history = None
+    if cls.startswith("history"):
+        history = _plan_history(rq, cls, i // len(CLASSES), n, s, thorough)
     sp = SPELLINGS[(i // len(CLASSES)) % len(SPELLINGS)]
     alt = SPELLINGS[((i // len(CLASSES)) + 1 + int(rng.integers(0, len(SPELLINGS) - 1))) % len(SPELLINGS)]
     on_axis = bool(s[0] == 0 and s[1] == 0)
-    case = {"i": i, "cls": cls, "df": df, "index": index, "n": n, "spelling": sp, "alt_spelling": alt, "s": s, "s_kind": kind,
-            "on_axis": on_axis}
+    case = {"i": i, "cls": cls, "df": df, "index": index, "glued": glued, "n": n, "spelling": sp, "alt_spelling": alt, "s": s,
+            "s_kind": kind, "on_axis": on_axis, "history": history}
     case["summary"] = {"n": n, "symmetry": repr(spell(n, sp)), "alt": repr(spell(n, alt)), "particles": N,
                        "offset": [float(x) for x in s], "offset_container": kind, "orientation_kind": ori,
-                       "index": "default" if index is None else "odd", "class": cls, "parents_with_all_shifts_zero": n_zero,
+                       "index": ("glued %s" % glued) if glued else ("default" if index is None else "odd"), "class": cls,
+                       "parents_with_all_shifts_zero": n_zero, "planted": repr_note,
+                       "history": None if history is None else [(st["op"], st.get("name") or "n=%d %s" % (st["n"], st["spelling"]))
+                                                                for st in history],
                        "row0": {k: float(df[k].iloc[0]) for k in ("subtomo_id", "x", "y", "z", "shift_x", "shift_y", "shift_z",
                                                                    "phi", "theta", "psi")}}
     return case
@@ -335,10 +482,19 @@ def _relational(ctx, parent, n, s, out, on_axis, tag):
         ctx.check("on_axis_coincide", w is None, w)
 
 
-def _split(ctx, df, index, sym, s_arg, label):
+def _table(df, index=None, glued=None):
+    """the caller's table: default index, an odd index, or pieces glued with pd.concat without ignore_index (repeated labels)"""
     t = df.copy()
-    if index is not None:
+    if glued:
+        cuts = np.cumsum([0] + list(glued))
+        t = pd.concat([t.iloc[a:b].reset_index(drop=True) for a, b in zip(cuts[:-1], cuts[1:])])
+    elif index is not None:
         t.index = index
+    return t
+
+
+def _split(ctx, df, index, sym, s_arg, label, glued=None, direct_recentre=True):
+    t = _table(df, index, glued)
     ok, m = ctx.call("Motl(df)", ctx.cm.Motl, t)
     if not ok:
         return None, None
@@ -348,21 +504,129 @@ def _split(ctx, df, index, sym, s_arg, label):
     # the `recentre` monitor sits on Motl.update_coordinates; whether the expansion reaches it through that public method is
     # an internal matter of cryoCAT (the result itself is judged by `integral` and `position`), so the driver also applies
     # the step itself, to the parents' list (non-trivial: fractional shifts) - the monitor is reached in either case
-    ok2, m2 = ctx.call("Motl(df)", ctx.cm.Motl, t.copy())
-    if ok2:
-        ctx.call("update_coordinates(parents)", m2.update_coordinates)
+    if direct_recentre:
+        ok2, m2 = ctx.call("Motl(df)", ctx.cm.Motl, t.copy())
+        if ok2:
+            ctx.call("update_coordinates(parents)", m2.update_coordinates)
     return res.df, t
 
 
+def _apply_edit(ctx, m, t, name, rng):
+    """in-place edit of the list held by the Motl object m (t = the caller's own handle of the same DataFrame); the list stays
+    inside the quantifier (finite, distinct ids).  cryoCAT's own editing methods are used as a user would; what they do is not
+    judged here - the next expansion is judged against whatever the list then is."""
+    N = len(m.df)
+    cols = list(m.df.columns)
+    ci = lambda *names: [cols.index(c) for c in names]
+    some = np.flatnonzero(rng.random(N) < 0.5)
+    if not len(some):
+        some = np.array([int(rng.integers(0, N))])
+    if name == "apply_rotation":
+        from scipy.spatial.transform import Rotation
+        q = rng.normal(size=4)
+        m.apply_rotation(Rotation.from_quat(q / np.linalg.norm(q)))
+    elif name == "flip_handedness":
+        m.flip_handedness()
+    elif name == "flip_handedness_dims":
+        try:
+            m.flip_handedness([int(a) for a in rng.integers(300, 900, 3)])
+        except Exception as e:
+            ctx.notes.append("flip_handedness(dims) raised %s: plain sign flip of theta used instead" % type(e).__name__)
+            m.df["theta"] = -m.df["theta"]
+    elif name == "assign_angle_columns":
+        a = so3.random_euler(rng, N, "mixed")
+        m.df["phi"] = a[:, 0]; m.df["theta"] = a[:, 1]; m.df["psi"] = a[:, 2]
+    elif name == "loc_assign_angles":
+        m.df.loc[:, ["phi", "theta", "psi"]] = so3.random_euler(rng, N, "wide")
+    elif name == "caller_handle_angles":
+        h = t if m.df is t else m.df
+        h["psi"] = h["psi"] + float(rng.uniform(20, 160))
+        h["theta"] = rng.uniform(0, 180, N)
+    elif name == "iloc_some_rows_angles":
+        m.df.iloc[some, ci("phi", "theta", "psi")] = so3.random_euler(rng, len(some), "random")
+    elif name == "add_to_columns":
+        d = rng.uniform(-40, 40, 3)
+        m.df["x"] = m.df["x"] + d[0]; m.df["y"] = m.df["y"] + d[1]; m.df["z"] = m.df["z"] + d[2]
+    elif name == "loc_assign_shifts":
+        sh = rng.uniform(-4, 4, (N, 3))
+        sh[rng.random(N) < 0.3] = 0.0
+        m.df.loc[:, ["shift_x", "shift_y", "shift_z"]] = sh
+    elif name == "scale_coordinates":
+        m.scale_coordinates(float(rng.choice([2.0, 0.5, 1.5, 4.0])))
+    elif name == "iloc_some_rows_pos":
+        m.df.iloc[some, ci("x", "y", "z")] = np.round(rng.uniform(-300, 300, (len(some), 3)), int(rng.integers(0, 3)))
+    elif name == "renumber_ids":
+        ids = m.df["subtomo_id"].to_numpy(dtype=float)
+        m.df["subtomo_id"] = rng.permutation(ids) if N > 1 and rng.random() < 0.7 else ids[::-1] + 1000.0
+    elif name == "reorder_rows":
+        perm = rng.permutation(N) if N > 2 else np.arange(N)[::-1]
+        m.df.iloc[:, :] = m.df.iloc[perm].to_numpy()
+    elif name == "edit_fields":
+        m.df["score"] = rng.uniform(0, 1, N).round(5)
+        m.df["class"] = rng.integers(1, 9, N).astype(float)
+        m.df["geom3"] = rng.integers(0, 1000, N).astype(float)
+        m.df["object_id"] = m.df["object_id"] + 10.0
+    elif name == "caller_handle_pos":
+        h = t if m.df is t else m.df
+        h["z"] = h["z"] - 17.25
+        h["shift_x"] = 0.0
+        h["y"] = np.round(h["y"])
+    else:
+        raise ValueError(name)
+    ctx.extra["inplace_edits_" + name] = ctx.extra.get("inplace_edits_" + name, 0) + 1
+
+
+def run_history(ctx, case):
+    rng = ctx.rng(case["i"], 5)
+    t = _table(case["df"], case["index"], case["glued"])
+    ok, m = ctx.call("Motl(df)", ctx.cm.Motl, t)
+    if not ok:
+        return
+    A = np.zeros(3)                                   # ONE caller-owned offset array, overwritten in place between the calls
+    outs = []
+    edited = False
+    for st in case["history"]:
+        if st["op"] == "edit":
+            _apply_edit(ctx, m, t, st["name"], rng)
+            edited = True
+            continue
+        A[:] = st["s"]
+        parent = m.df.copy()
+        n = st["n"]
+        sym = spell(n, st["spelling"])
+        ok, res = ctx.call("split(%s)" % st["spelling"], m.split_in_asymmetric_subunits, sym, A)
+        outs.append(res.df if ok else None)
+        if not ok:
+            continue
+        if edited:
+            ctx.extra["splits_after_inplace_edit"] = ctx.extra.get("splits_after_inplace_edit", 0) + 1
+        elif len(outs) > 1:
+            ctx.extra["splits_repeated_on_same_object"] = ctx.extra.get("splits_repeated_on_same_object", 0) + 1
+        sv = np.array(st["s"], dtype=float)
+        _relational(ctx, parent, n, sv, res.df, bool(sv[0] == 0 and sv[1] == 0), repr(sym) + " (call %d on one object)" % len(outs))
+        if "repeat_of" in st and outs[st["repeat_of"]] is not None:
+            okk, w = orc.same_tables(outs[st["repeat_of"]], res.df)
+            ctx.check("repeat_agree", okk, None if w is None else dict(w, first_call=st["repeat_of"] + 1, again_call=len(outs)))
+    ok2, m2 = ctx.call("Motl(df)", ctx.cm.Motl, m.df.copy())
+    if ok2:
+        ctx.call("update_coordinates(parents)", m2.update_coordinates)
+
+
 def run_case(ctx, case):
+    if case["history"] is not None:
+        return run_history(ctx, case)
     n, s = case["n"], case["s"]
     sym = spell(n, case["spelling"])
-    out, parent = _split(ctx, case["df"], case["index"], sym, _container(s, case["s_kind"]), "split(%s)" % case["spelling"])
+    out, parent = _split(ctx, case["df"], case["index"], sym, _container(s, case["s_kind"]), "split(%s)" % case["spelling"],
+                         glued=case["glued"])
     if out is None:
         return
     _relational(ctx, case["df"], n, s, out, case["on_axis"], repr(sym))
+    if len(out) > 1100:                                            # the big block-boundary lists are expanded once
+        return
     sym2 = spell(n, case["alt_spelling"])
-    out2, _ = _split(ctx, case["df"], case["index"], sym2, np.array(s, dtype=float), "split(%s)" % case["alt_spelling"])
+    out2, _ = _split(ctx, case["df"], case["index"], sym2, np.array(s, dtype=float), "split(%s)" % case["alt_spelling"],
+                     glued=case["glued"])
     if out2 is None:
         return
     _relational(ctx, case["df"], n, s, out2, case["on_axis"], repr(sym2))
@@ -414,6 +678,63 @@ def extra(ctx):
     ctx.extra["spellings_per_n"] = len(SPELLINGS)
     ctx.extra["offsets_per_n"] = "generic (all %d spellings), on-axis, zero" % len(SPELLINGS)
     ctx.extra["sweep_calls"] = calls
+    # block-boundary row counts: N*n = 2**k - 1, 2**k, 2**k + 1, up to three (N, n) factorisations each
+    tmax = 4097 if ctx.tier == "thorough" else 1025
+    bcalls = 0
+    for t in [t for t in BLOCK_TARGETS if t <= tmax]:
+        pairs = BLOCK_PAIRS[t]
+        for q in sorted({0, len(pairs) // 2, len(pairs) - 1}):
+            N, n = pairs[q]
+            rng = ctx.rng(3 * 10 ** 6 + 100 * t + q, 10)
+            df = gens.motl_table(rng, N, tomos=2, ori="mixed", signed=bool(rng.integers(0, 2)))
+            v = rng.uniform(-20, 20, 3)
+            sp = SPELLINGS[(t + q) % len(SPELLINGS)]
+            ctx.cur = {"index": "extra", "cls": "exhaustive", "summary": {"block_rows": t, "n": n, "particles": N,
+                                                                           "offset": [float(x) for x in v]}}
+            out, _ = _split(ctx, df, None, spell(n, sp), v, "split(%s)" % sp, direct_recentre=False)
+            bcalls += 1
+            if out is not None:
+                _relational(ctx, df, n, v, out, False, repr(spell(n, sp)))
+    ctx.extra["block_boundary_row_counts"] = [t for t in BLOCK_TARGETS if t <= tmax]
+    ctx.extra["block_boundary_calls"] = bcalls
+    # option-pair grid: spelling x offset container x offset kind x index layout, every combination `reps` times
+    reps = 4 if ctx.tier == "thorough" else 2
+    c = 0
+    pair = {}
+    for _ in range(reps):
+        for sp in SPELLINGS:
+            for cont in CONTAINERS:
+                for okind in ("generic", "inplane", "on_axis", "zero"):
+                    for ikind in ("default", "glued", "odd"):
+                        rng = ctx.rng(2 * 10 ** 6 + c, 9)
+                        n = [2, 3, 4, 5, 6, 7, 8, 9, 11, 12, 13, 16][c % 12]
+                        c += 1
+                        g = next((q for q in (2, 3, 5) if n % q == 0), 2)
+                        N = 2 * g if ikind == "glued" else int(rng.integers(2, 5))
+                        df = gens.motl_table(rng, N, tomos=2, ori="mixed", signed=bool(rng.integers(0, 2)))
+                        v = rng.integers(-20, 21, 3).astype(float) if cont.startswith("int") else rng.uniform(-20, 20, 3)
+                        if okind in ("generic", "inplane") and not v[:2].any():
+                            v[0] = 3.0
+                        if okind == "inplane":
+                            v[2] = 0.0
+                        elif okind == "on_axis":
+                            v[:2] = 0.0
+                        elif okind == "zero":
+                            v[:] = 0.0
+                        ctx.cur = {"index": "extra", "cls": "exhaustive", "summary": {"grid": [sp, cont, okind, ikind], "n": n,
+                                                                                       "particles": N, "offset": [float(x) for x in v]}}
+                        out, _ = _split(ctx, df, (rng.permutation(N) * 2 + 3) if ikind == "odd" else None, spell(n, sp),
+                                        _container(v, cont), "split(%s)" % sp, glued=[g, g] if ikind == "glued" else None,
+                                        direct_recentre=False)
+                        if out is not None:
+                            _relational(ctx, df, n, v, out, okind in ("on_axis", "zero"), repr(spell(n, sp)))
+                            opts = (sp, cont, okind, ikind)
+                            for a in range(4):
+                                for b in range(a + 1, 4):
+                                    pair[(opts[a], opts[b])] = pair.get((opts[a], opts[b]), 0) + 1
+    ctx.extra["option_grid_calls"] = c
+    ctx.extra["option_pairs_distinct"] = len(pair)
+    ctx.extra["option_pairs_min_count"] = min(pair.values()) if pair else 0
     # out-of-quantifier probes: must be counted out_of_domain, never judged
     rng = ctx.rng(10 ** 6, 8)
     df = gens.motl_table(rng, 3)
